@@ -353,6 +353,15 @@ def run(prog, rep, tier):
     l2_chars(prog, rep)
     l3_df20(prog, rep)
     l4_scales(prog, rep, tier)
+    l5_altitude_identity(prog, rep, tier)
+
+
+def l5_altitude_identity(prog, rep, tier):
+    """L5: barometric altitude (13-bit AC field, 12-bit airborne-position field) and the identity code are
+    fields of this property too: the rules of C13 (bit permutation, Gillham tables and normal forms,
+    25*N - 1000, re-insertion of the M bit before decode_id13, no lossy cast) are evaluated here as well."""
+    from props import c13
+    c13.run(prog, util.Prefixed(rep, 'L5-altitude-identity/'), tier)
 
 
 def field_producers(prog, body, name):
